@@ -156,13 +156,13 @@ def mutate_doc(rng, base, depth=3, **kw):
     return rec(base, depth)
 
 
-def rand_sequence(rng, n_docs, depth=4, **kw):
-    docs = [rand_doc(rng, depth, **kw)]
+def rand_sequence(rng, n_docs, depth=4, pathlike=0.15, **kw):
+    docs = [rand_doc(rng, depth, pathlike=pathlike, **kw)]
     for _ in range(n_docs - 1):
         if rng.random() < 0.75:
             docs.append(mutate_doc(rng, rng.choice(docs), depth, **kw))
         else:
-            docs.append(rand_doc(rng, depth, **kw))
+            docs.append(rand_doc(rng, depth, pathlike=pathlike, **kw))
     return docs
 
 
